@@ -551,7 +551,7 @@ def run_multi(pipes, schedule, taps='all'):
     return out
 
 
-def run_src(pipe, items, complete=True, timescale=None, taps='all'):
+def run_src(pipe, items, complete=True, timescale=None, taps='all', root='store'):
     """A plain source through with_memory_store (root key (0,))."""
     import rx
     import rxsci as rs
@@ -560,7 +560,10 @@ def run_src(pipe, items, complete=True, timescale=None, taps='all'):
     ctx = {'routers': [], 'timescale': timescale, 'taps': taps}
     ops = build(pipe, rec, [], ctx)
     src = Subject()
-    obs = src.pipe(rs.state.with_memory_store(pipeline=rx.pipe(*ops)))
+    if root == 'multiplex':     # no store: stateless pipelines only
+        obs = src.pipe(rs.ops.multiplex(rx.pipe(*ops)))
+    else:
+        obs = src.pipe(rs.state.with_memory_store(pipeline=rx.pipe(*ops)))
 
     def on_next(i):
         rec.out.append({'v': enc(i), 'o': rec.nxt()})
